@@ -64,7 +64,7 @@ package table
 // The reader takes the partition width and the offsets table from the filter block itself (a table may have been
 // written with another FilterBaseLg than the one configured now).
 //@ func (*Reader).readFilterBlock
-//@   props C16
+//@   props C16 C13
 //@   mode bv
 //@   requires bh.length <= 1099511627776
 //@   ensures [layout-from-block] ret1 == nil ==> (ret0 != nil && fbwf(ret0) && ret0.baseLg == uint(ret0.data[len(ret0.data)-1]) && ret0.oOffset == int(le32(ret0.data, len(ret0.data)-5)))
@@ -219,21 +219,24 @@ package table
 
 // (reading and decoding the footer and metaindex blocks is C13 material: left abstract here)
 //@ func (*Reader).readBlock
-//@   props C16
+//@   props C16 C13
 //@   trusted
 // C16 (policy change): a table's filter block is probed with the policy it was written with: the policy the reader
 // keeps for a table is the one whose name was just compared with the name recorded in the table's metaindex
 // (string comparison itself is not modelled).
 //@ ghost var gNamed int
 //@ func NewReader
-//@   props C16
+//@   props C16 C13
 //@   safety off
+//@   loop 1
+//@     invariant [C13:data-area-ends-where-the-first-meta-block-starts] r.dataEnd == int64(r.metaBH.offset) || r.dataEnd == int64(r.filterBH.offset)
+//@   guarantees [C13:data-area-ends-where-the-first-meta-block-starts] (ret1 == nil && ret0 != nil && ret0.err == nil) ==> (ret0.dataEnd == int64(ret0.metaBH.offset) || ret0.dataEnd == int64(ret0.filterBH.offset))
 //@   at before call filter.Filter.Name#1
 //@     ghost gNamed = recv
 //@   at before call filter.Filter.Name#2
 //@     ghost gNamed = recv
 //@   at before call (*Reader).readFilterBlock#1
-//@     assume [C16:filter-block-handle-from-the-checksummed-metaindex-is-sane] r.filterBH.length <= 1099511627776
+//@     assume [C13,C16:filter-block-handle-from-the-checksummed-metaindex-is-sane] r.filterBH.length <= 1099511627776
 //@   at before stmt r.filter = f0#1
 //@     assert [C16:table-is-probed-with-the-policy-whose-name-was-just-compared] f0 == gNamed
 //@   at before stmt r.filter = f0#2
@@ -241,9 +244,33 @@ package table
 
 // C08 / C13: every data block a lookup reads is read with the reader's checksum setting (so that altered bytes are
 // reported, not served), whichever of the two places in find fetches it.
+//@ ghost var gAsked int
+//@ ghost var gDataFailed bool
+//@ ghost var gDataErrAsked bool
 //@ func (*Reader).find
 //@   props C13 C08
 //@   safety off
+// C08: when a step of the data-block iterator fails (Seek / Next answers false), the reason is asked of THAT iterator
+// before the lookup goes on or gives an answer: a block that could not be read or failed its checksum must surface
+// as an error, not as "not in this block".
+//@   at entry
+//@     ghost gDataFailed = false
+//@     ghost gDataErrAsked = false
+//@   at before call iterator.IteratorSeeker.Seek#*
+//@     ghost gAsked = recv
+//@   at call iterator.IteratorSeeker.Seek#*
+//@     ghost gDataFailed = !result
+//@     ghost gDataErrAsked = false
+//@   at before call iterator.IteratorSeeker.Next#*
+//@     assert [C08,C13:failed-data-block-step-is-explained-before-moving-on] !gDataFailed || gDataErrAsked
+//@     ghost gAsked = recv
+//@   at call iterator.IteratorSeeker.Next#*
+//@     ghost gDataFailed = !result
+//@     ghost gDataErrAsked = false
+//@   at before call iterator.CommonIterator.Error#*
+//@     ghost gDataErrAsked = gDataErrAsked || recv == gAsked
+//@   at return
+//@     assert [C08,C13:failed-data-block-step-is-explained-before-answering] !gDataFailed || gDataErrAsked
 //@   at before call (*Reader).getDataIter#1
 //@     assert [C08,C13:data-block-read-with-the-readers-checksum-setting] arg2 == r.verifyChecksum
 //@   at before call (*Reader).getDataIter#2
